@@ -624,6 +624,29 @@ pub fn apply_adv<A: Adapter>(
     let mut rng = rng_for("adv", hash_str(&beh.id) ^ hash_str(&adv.kind));
     match adv.kind.as_str() {
         "none" => true,
+        // ---- C17: labels / evaluations the verifier looks up in vain ----
+        "missing_eval" => match st {
+            Stmt::Batch { evals, .. } => evals.remove(&(plabel(adv.l), A::make_point(adv.pt, beh))).is_some(),
+            Stmt::Lc { evals, .. } => evals.remove(&(elabel(adv.l), A::make_point(adv.pt, beh))).is_some(),
+            _ => false,
+        },
+        "unknown_query" => match st {
+            Stmt::Batch { qs, evals, .. } => {
+                let point = A::make_point(adv.pt, beh);
+                qs.insert((plabel(adv.l), (qlabel(adv.pl), point.clone())));
+                evals.insert((plabel(adv.l), point), A::F::rand(&mut rng));
+                true
+            }
+            _ => false,
+        },
+        "drop_commitment" => match st {
+            Stmt::Batch { comms, .. } => {
+                let n = comms.len();
+                comms.retain(|c| c.label() != &plabel(adv.l));
+                comms.len() < n
+            }
+            _ => false,
+        },
         // ---- statement: claimed value ----
         "value" => {
             let d: A::F = delta(beh, &adv.pat);
